@@ -74,6 +74,22 @@ nokey) mutant nokey $N/core.go '				if c.aesData == nil {
 				}
 				msi += 16' '				msi += 16' ;;
 hdrloop) mutant hdrloop $N/hdrs.go '			if n, _ := b.Read(hdr); n != 80 {' '			if n, _ := b.Read(hdr); false && n != 80 {' ;;
+getheaders) mutant getheaders $N/hdrs.go '			common.CountSafe("GetHeadersOrphBlk")
+		}' '			common.CountSafe("GetHeadersOrphBlk")
+			panic(r)
+		}' ;;
+assemble) mutant assemble $N/cblk.go '			c.DoS("BlkTxnIncomplete")
+			return' '			c.DoS("BlkTxnIncomplete")' ;;
+scriptrecover) mutant scriptrecover /repo/lib/script/script.go '	defer func() {
+		if r := recover(); r != nil {
+			if DBG_ERR {
+				err, ok := r.(error)' '	defer func() {
+		if r := recover(); false && r != nil {
+			if DBG_ERR {
+				err, ok := r.(error)' ;;
+txrecover) mutant txrecover /repo/lib/btc/tx.go '		if r := recover(); r != nil {
+			println("NewTx failed")' '		if r := recover(); false && r != nil {
+			println("NewTx failed")' ;;
 *) echo "unknown mutant $1" ;;
 esac
 }
